@@ -494,7 +494,7 @@ _PS_RULE = ("pubsub: 1-3 senders (1-4 Sends each) and 1-5 subscriber goroutines 
             "load of the CAS loop / after the CAS while a subscriber unsubscribes (the unsubscribe lands between ping.Add and the CAS, makes the CAS fail, empties the caster, or absorbs)")
 _PS_C06_OBS = ("its loop body was handed", "received a value that is not", "Send returned", "the iterator yielded", "acknowledged value differs", "pongs to wait for", "Wait consumed a pong",
                "Send stopped waiting", "Send returned before its pongs", "a value was received by a subscriber that is not between rounds", "fast path")
-_PS_C07_OBS = ("while still holding sendingMu", "unsubscribe by a subscriber that is not between rounds", "TryRLock succeeded while", "panic: bigbuff", "state invariant violation", "the model panics here", "did not return", "broken", "final validation panicked", "left through its deferred unlock", "subscribers left at the end",
+_PS_C07_OBS = ("a call panicked", "while still holding sendingMu", "unsubscribe by a subscriber that is not between rounds", "TryRLock succeeded while", "panic: bigbuff", "state invariant violation", "the model panics here", "did not return", "broken", "final validation panicked", "left through its deferred unlock", "subscribers left at the end",
                "final subscriber count", "caster word not 0")
 def ps_monitor(prop, m, trace):
     text = m.get("expected", "") + " " + m.get("observed", "")
